@@ -7,4 +7,6 @@ DevAbsPatch == {"Patch_AbsoluteOffset"}
 DevLenTrailer == {"Len_IncludesTrailer"}
 DevCsumBeforePatch == {"Checksum_BeforePatch"}
 DevScratch == {"Scratch_KeptOnError"}
+DevRcvKeeps == {"Receiver_KeepsBody"}
+RcvOps == {"encode", "decode", "refused", "next"}
 =============================================================================
